@@ -44,6 +44,9 @@ func dialClosures(c *Ctx) []dialClosure {
 			}
 			if cl := closureOf(st.Val); cl != nil && cl.Parent() == fn {
 				out = append(out, dialClosure{fn, cl, st})
+			} else if m := boundMethod(st.Val); m != nil && m.Pkg == fn.Pkg {
+				// `tr.DialContext = (&dialer{…}).DialContext`: state in struct fields instead of captures
+				out = append(out, dialClosure{fn, m, st})
 			}
 		})
 	}
@@ -635,11 +638,77 @@ func c18Chaining(c *Ctx, dcs []dialClosure) {
 			})
 		}
 		key := "wrapper-chaining:" + shortFn(dc.fn)
-		if dialFV == nil {
+		var cell *ssa.Alloc
+		if dialFV != nil {
+			cell, _ = bindingOf(dialFV).(*ssa.Alloc)
+		} else if f := recvFuncFieldCalled(dc.fn); f >= 0 {
+			// struct form: the field is filled by the option from its `dial` variable
+			eachInstr(dc.option, func(i ssa.Instruction) {
+				if st, isSt := i.(*ssa.Store); isSt {
+					if fa, isFA := st.Addr.(*ssa.FieldAddr); isFA && fa.Field == f && types.Identical(fa.X.Type(), dc.fn.Params[0].Type()) {
+						if al, isAl := loadedCell(st.Val).(*ssa.Alloc); isAl {
+							cell = al
+						}
+					}
+				}
+			})
+			if cell == nil {
+				// the option's `dial` is a plain local here (nothing captures it): φ[tr.DialContext, fallback | tr.DialContext == nil]
+				okV, whyV := false, "the dial function held by the dialer struct is not the transport's previous DialContext"
+				eachInstr(dc.option, func(i ssa.Instruction) {
+					st, isSt := i.(*ssa.Store)
+					if !isSt {
+						return
+					}
+					fa, isFA := st.Addr.(*ssa.FieldAddr)
+					if !isFA || fa.Field != f || !types.Identical(fa.X.Type(), dc.fn.Params[0].Type()) {
+						return
+					}
+					v := stripConv(strip(st.Val))
+					edges := []ssa.Value{v}
+					var preds []*ssa.BasicBlock
+					if phi, isPhi := v.(*ssa.Phi); isPhi {
+						edges = phi.Edges
+						preds = phi.Block().Preds
+					}
+					fromTr, bad := false, false
+					for k, e := range edges {
+						e = stripConv(strip(e))
+						if ld, isL := isLoad(e); isL && isDialContextField(ld.X) {
+							fromTr = true
+							if !instrDominates(ld, dc.store) {
+								bad = true
+							}
+							continue
+						}
+						// fallback only where the previous DialContext was nil
+						guarded := false
+						if preds != nil {
+							for _, fct := range factsAt(preds[k]) {
+								if bo, isBo := fct.Cond.(*ssa.BinOp); isBo && bo.Op == token.EQL && fct.Val && isNilConst(bo.Y) {
+									if ld, isL := isLoad(stripConv(strip(bo.X))); isL && isDialContextField(ld.X) {
+										guarded = true
+									}
+								}
+							}
+						}
+						if !guarded {
+							bad = true
+						}
+					}
+					if fromTr && !bad {
+						okV = true
+					} else if fromTr {
+						whyV = "the previous dialer is replaced unconditionally or read after the new one was installed"
+					}
+				})
+				c.Check(okV, key, rule, "dials through the previously installed DialContext (held in the dialer struct)", whyV, c.at(dc.store))
+				continue
+			}
+		} else {
 			// a closure that does not call a captured dialer is a reset (UnixSocket); classified in option-order
 			continue
 		}
-		cell, _ := bindingOf(dialFV).(*ssa.Alloc)
 		ok := cell != nil
 		why := "the captured dial function is not a variable of the option"
 		if ok {
@@ -685,6 +754,29 @@ func c18Chaining(c *Ctx, dcs []dialClosure) {
 	}
 }
 
+// recvFuncFieldCalled: the method calls a function stored in a field of its receiver; returns that
+// field's index, or -1.
+func recvFuncFieldCalled(m *ssa.Function) int {
+	if m == nil || m.Signature.Recv() == nil || len(m.Params) == 0 {
+		return -1
+	}
+	out := -1
+	for _, g := range withAnon(m) {
+		eachInstr(g, func(i ssa.Instruction) {
+			call, ok := i.(*ssa.Call)
+			if !ok || call.Call.IsInvoke() || call.Call.StaticCallee() != nil {
+				return
+			}
+			if ld, isL := isLoad(call.Call.Value); isL {
+				if fa, isFA := ld.X.(*ssa.FieldAddr); isFA && fa.X == ssa.Value(m.Params[0]) && isFuncType(fa.Type().(*types.Pointer).Elem()) {
+					out = fa.Field
+				}
+			}
+		})
+	}
+	return out
+}
+
 // ---- option order in the command
 
 type optClass struct {
@@ -702,6 +794,12 @@ func classifyOption(c *Ctx, ctor *ssa.Function) optClass {
 				if isDialContextField(x.Addr) {
 					cl := closureOf(x.Val)
 					wr := false
+					if m := boundMethod(x.Val); m != nil {
+						cl = nil
+						if m.Pkg == f.Pkg && recvFuncFieldCalled(m) >= 0 {
+							wr = true
+						}
+					}
 					if cl != nil {
 						for _, g := range withAnon(cl) {
 							eachInstr(g, func(j ssa.Instruction) {
